@@ -109,6 +109,23 @@ def gen_feedback(rng, m, cfg, nodes):
     val = rng.choice([b'0', b'3', b'1', b'30', b'03', b'9'])
     return addr, C('MSG_VENDOR'), bytes([len(name)]) + name + bytes([len(val)]) + val
 
+def field_sweep(rng, m, cfg, nodes, ntemplates=8, values=None):
+    """Systematic hostile-but-well-formed feedback: valid messages about EXISTING equipment (templates from gen_feedback) in which one
+    data byte at a time takes every value 0..255 - enumerations outside their tables (dynamic-state numbers, ack codes, execution
+    states, formats ...), lengths, counts, all with the real node / number / port / DCC address in the other bytes. Used by the checks
+    whose statement covers out-of-range field values (C11 lock balance on the receiver thread, C12 memory safety)."""
+    out = []
+    for _ in range(ntemplates):
+        ad, t, data = gen_feedback(rng, m, cfg, nodes)
+        if t in (C('MSG_NODE_LOST'), C('MSG_NODE_NEW')) or not data:
+            continue
+        pos = rng.randrange(len(data))
+        for v in (values or range(256)):
+            d2 = bytearray(data)
+            d2[pos] = v
+            out.append((ad, t, bytes(d2)))
+    return out
+
 def gen_command(rng, m, cfg):
     """a user command with optimistic state effect -> (scenario line, hook or None)"""
     conn = [b for b in cfg['boards'] if m.connected(b['id'])]
